@@ -312,4 +312,16 @@ Proof.
         split; [cbn [length]; lia|constructor; assumption]. }
   destruct H as (l & L1 & L2 & L3 & L4). exists l. repeat split; try assumption. lia.
 Qed.
+(* a published VAA passes VerifySignatures against the set it was assembled for (what every other guardian and the explorer run) *)
+Lemma qvalid_passes_verify v K : qvalid v K -> verify_sigs rec keccak v K = true.
+Proof. intros [Ha _]. apply verify_sigs_iff. exact Ha. Qed.
+
+(* ... and the count test of both contracts (formulas and comparison directions extracted from Messages.sol / governance.ral) *)
+Lemma qvalid_passes_contract_quorum v K : qvalid v K ->
+  sol_quorum_accepts (sol_quorum (Z.of_nat (length K))) (Z.of_nat (length (sigs v))) = true /\
+  ral_quorum_accepts (ral_quorum (Z.of_nat (length K))) (Z.of_nat (length (sigs v))) = true.
+Proof.
+  intros [_ Hq]. rewrite go_quorum_spec in Hq by lia. rewrite sol_quorum_spec, ral_quorum_spec.
+  unfold sol_quorum_accepts, ral_quorum_accepts. split; apply Z.leb_le; exact Hq.
+Qed.
 End C01.
